@@ -491,6 +491,16 @@ impl OutputList {
                     .write_event(text_event)
                     .map_err(SvgdxError::from_err)?;
             }
+            if let OutputEvent::CData(ref content) = event {
+                // generated content (e.g. styles built from config strings) may
+                // contain ']]>', which must be split across CDATA sections
+                for cdata in BytesCData::escaped(content) {
+                    writer
+                        .write_event(Event::CData(cdata))
+                        .map_err(SvgdxError::from_err)?;
+                }
+                continue;
+            }
             writer.write_event(event).map_err(SvgdxError::from_err)?;
         }
         // re-add any trailing text
@@ -544,7 +554,18 @@ impl<'a> From<OutputEvent> for Event<'a> {
         match svg_ev {
             OutputEvent::Empty(e) => Event::Empty(e.into_bytesstart()),
             OutputEvent::Start(e) => Event::Start(e.into_bytesstart()),
-            OutputEvent::Comment(t) => Event::Comment(BytesText::from_escaped(t)),
+            OutputEvent::Comment(t) => {
+                // Comments generated from attribute values ('_', debug) may contain
+                // '--' or end with '-', neither of which is allowed in XML.
+                let mut t = t;
+                while t.contains("--") {
+                    t = t.replace("--", "- -");
+                }
+                if t.ends_with('-') {
+                    t.push(' ');
+                }
+                Event::Comment(BytesText::from_escaped(t))
+            }
             OutputEvent::Text(t) => Event::Text(BytesText::from_escaped(t)),
             OutputEvent::CData(t) => Event::CData(BytesCData::new(t)),
             OutputEvent::End(name) => Event::End(BytesEnd::new(name)),
